@@ -59,7 +59,7 @@ CLASSES = ['success', 'success', 'success', 'missing-query', 'corrupt-query',
 
 def gen_cases(tier, seed):
     rng = np.random.default_rng([seed, 120])
-    n = 48 if tier == 'quick' else 400
+    n = 48 if tier == 'quick' else 3200
     base = mapcases.random_large_cases(rng, n, max_levels=4, max_leaves=10,
                                        max_cells=24)
     cases = []
